@@ -4,7 +4,7 @@
    `exists ops, wf_run init ops /\ s = final step init ops`; wf_run only demands that AEnter names an allocated
    scope id (C06_invariant_needs_wf shows that the totalised model violates the invariant otherwise).
    live s tm = number of loop entries (timer heap + ready queue) carrying timer id tm. *)
-From AV Require Import Base Machine ChainSpec ChainGen ChainEq ChainFrame ChainThms ChainWalk ChainMono TimerInv TimerThms.
+From AV Require Import Base Machine ChainSpec ChainGen ChainEq ChainFrame ChainThms ChainWalk ChainMono TimerInv TimerThms TimerOrder.
 From Coq Require Import Sorted.
 
 (* ---------------- I3: one live timer, never missed, no stray timers ---------------- *)
@@ -53,6 +53,30 @@ Theorem C06_timer_ids_unique : forall (s : st) (tm : tmid),
 Proof. exact timer_ids_unique. Qed.
 Print Assumptions C06_timer_ids_unique.
 
+(* never missed, strong form: a due deadline has its callback in the ready queue; running it cancels the scope *)
+Theorem C06_due_timeout_is_ready : forall (s : st) (c : sid) (d : Z),
+  (exists ops, wf_run init ops /\ s = final step init ops) ->
+  s_active (scopes s c) = true -> s_cancelled (scopes s c) = false ->
+  s_deadline (scopes s c) = Some d -> (d <= now s)%Z ->
+  exists tm, s_timeout (scopes s c) = Some tm /\ In (HTimeout c tm) (ready s) /\ live s tm = 1.
+Proof. exact due_timeout_is_ready. Qed.
+Print Assumptions C06_due_timeout_is_ready.
+
+Theorem C06_timeout_run_cancels : forall (s : st) (c : sid) (tm : tmid),
+  (exists ops, wf_run init ops /\ s = final step init ops) -> In (HTimeout c tm) (ready s) ->
+  let s' := fst (step s (ARun (HTimeout c tm))) in
+  s_cancelled (scopes s' c) = true /\
+  (s_cancelled (scopes s c) = false -> s_bydeadline (scopes s' c) = true) /\
+  ~ In (HTimeout c tm) (ready s') /\ now s' = now s.
+Proof. exact timeout_run_cancels. Qed.
+Print Assumptions C06_timeout_run_cancels.
+
+(* deadline timers still in the heap are strictly in the future -- every op sequence, no side condition *)
+Theorem C06_heap_timers_in_future : forall (ops : list op) (x : timer) (c : sid),
+  In x (timers (final step init ops)) -> tm_what x = TScope c -> (now (final step init ops) < tm_when x)%Z.
+Proof. exact reach_heap_future. Qed.
+Print Assumptions C06_heap_timers_in_future.
+
 (* model observation: the machine accepts AEnter on a never-allocated scope id; then a stray timer appears *)
 Theorem C06_invariant_needs_wf :
   let ops := [ANewRoot; ASetDeadline 1 2 (Some 100%Z); AEnter 1 2; ANewScope 1 None false; ANewScope 1 None false] in
@@ -72,6 +96,24 @@ Theorem C06_deadline_cancel_only_when_due : forall (s : st) (o : op) (c : sid),
 Proof. exact deadline_cancel_only_when_due. Qed.
 Print Assumptions C06_deadline_cancel_only_when_due.
 
+(* ... and only via CancelScope._timeout: if the op neither enters a scope with a finite deadline (AEnter, fail_at,
+   task group entry, first step of a child whose handle scope was given one), nor assigns a finite deadline, nor
+   runs a fired timeout callback, then no scope becomes cancelled-by-deadline in that step *)
+Theorem C06_bydeadline_only_by_timeout_ops : forall (s : st) (o : op) (c : sid),
+  c < nscope s ->
+  match o with
+  | AEnter _ x => s_deadline (scopes s x) = None
+  | ASetDeadline _ _ d => d = None
+  | AFailAt _ d _ => d = None
+  | AGroupEnter _ g => s_deadline (scopes s (g_scope (groups s g))) = None
+  | ARun (HStep t) | ARun (HWake t _) => s_deadline (scopes s (k_hscope (tasks s t))) = None
+  | ARun (HTimeout _ _) => False
+  | _ => True
+  end ->
+  s_bydeadline (scopes s c) = false -> s_bydeadline (scopes (fst (step s o)) c) = false.
+Proof. exact bydeadline_only_by_timeout_ops. Qed.
+Print Assumptions C06_bydeadline_only_by_timeout_ops.
+
 Theorem C06_timeout_only_when_due : forall (s : st) (c x : sid),
   s_bydeadline (scopes (scope_timeout s c) x) = true -> s_bydeadline (scopes s x) = false ->
   x = c /\ exists d, s_deadline (scopes s c) = Some d /\ (d <= now s)%Z.
@@ -90,6 +132,17 @@ Theorem C06_tick_moves_due_timers : forall (s : st) (dt : Z),
                 StronglySorted (fun a b => (tm_when a <= tm_when b)%Z) moved.
 Proof. exact tick_moves_due_timers. Qed.
 Print Assumptions C06_tick_moves_due_timers.
+
+(* ... and they are appended in (when, id) order -- for EVERY op sequence, no side condition *)
+Theorem C06_tick_order : forall (ops : list op) (dt : Z),
+  (0 <= dt)%Z ->
+  let s := final step init ops in
+  let s' := fst (step s (ATick dt)) in
+  exists moved, ready s' = ready s ++ map handle_of_timer moved /\
+                (forall x, In x moved <-> In x (timers s) /\ (tm_when x <= now s')%Z) /\
+                StronglySorted (fun a b => (tm_when a < tm_when b)%Z \/ (tm_when a = tm_when b /\ tm_id a < tm_id b)) moved.
+Proof. exact tick_order. Qed.
+Print Assumptions C06_tick_order.
 
 (* ---------------- on entry / on deadline assignment ---------------- *)
 Theorem C06_past_deadline_cancels_on_enter : forall (s : st) (c : sid) (t : tid) (d : Z),
